@@ -255,11 +255,6 @@ func TestC14Standin(t *testing.T) {
 		if strings.Count(s, ",")+strings.Count(s, " or ")+strings.Count(s, "-(") > 6 {
 			continue
 		}
-		// protocol variables under a negated bracket: every simplification step enumerates all 65536 flag
-		// values for every combination of sub-queries, which takes minutes (slow, not divergent); skipped
-		if strings.Contains(s, "protocol:") && strings.Contains(s, "@protocol@") && strings.Contains(s, "-(") {
-			continue
-		}
 		evals++
 		if evals%200 == 0 {
 			flush(s)
